@@ -68,6 +68,8 @@ REQUESTS = [
     ("plain_bg1", '{ me { name nn } other { name best { nn name } } }', {}, [["u1.name", "u2.name"], ["root.other", "u3.name"]], None),
     ("initial_async", '{ me { name ... @defer(label: "d") { nn best { name } } } other { name friends @stream(label: "s") { id } } }', {},
      [["u1.name", "u2.name"], ["root.me", "u2.friends:agen"]], None),
+    ("nested_stream_item_fails", '{ me { nnFriends @stream(label: "s") { nn friends @stream(initialCount: 1, label: "n") { id } } } }', {},
+     [["u2.nn:err", "u2.friends:agen"], ["u2.nn:err", "u2.friends:aiter"], ["u3.nn:err"]], None),
     ("deep", '{ me { best { ... @defer(label: "a") { name friends @stream(label: "s") { id ... @defer(label: "c") { nn } } } } } }', {"s": "a"},
      [["u2.name", "u3.nn"], ["u2.friends:agen"]], None),
 ]
@@ -98,10 +100,10 @@ def with_noprop(text):
     return "query " + NOPROP + " " + text
 
 
-def plain_response(schema, text, fault, variables, noprop, data=None):
+def plain_response(schema, text, fault, variables, noprop, data=None, err_sites=()):
     from graphql import execute_sync, parse
 
-    key = (text, repr(fault), json.dumps(variables, default=repr), noprop, data is not None)
+    key = (text, repr(fault), json.dumps(variables, default=repr), noprop, data is not None, tuple(err_sites))
     r = _plain_cache.get(key)
     if len(_plain_cache) > 4000:
         _plain_cache.clear()
@@ -110,6 +112,12 @@ def plain_response(schema, text, fault, variables, noprop, data=None):
         if noprop:
             t = with_noprop(t)
         root, _objs = data(fault) if data is not None else incr.users(fault)
+        for site in err_sites:  # resolvers that fail asynchronously in the incremental run fail here too
+            oname, fname = site.split(":")[0].split(".")
+
+            def boom(path, args, site=site):
+                raise incr.Boom(f"{site} failed")
+            _objs[oname][fname] = boom
         res = execute_sync(schema, parse(t), root, variable_values=variables, field_resolver=incr.resolver())
         r = _plain_cache[key] = res.formatted
     return r
@@ -202,8 +210,9 @@ def judge(obs, schema, text, enclosing, fault, variables, noprop, label, payload
     except refinc.ProtocolViolation as e:
         res.violation("protocol:" + e.signature, f"{label}: {e.detail}; payloads {incr.dumps(obs.payloads)}", payload)
         return None
-    plain = plain_response(schema, text, fault, variables, noprop, data)
-    nonprop = plain if noprop else plain_response(schema, text, fault, variables, True, data)
+    err_sites = [x for x in payload.get("sites", []) if x.endswith(":err")]
+    plain = plain_response(schema, text, fault, variables, noprop, data, err_sites)
+    nonprop = plain if noprop else plain_response(schema, text, fault, variables, True, data, err_sites)
     source_fails = any("!" in s for s in payload.get("sites", []))
     if (not plain.get("errors") or noprop) and not source_fails:
         if canon(m.data) != canon(plain.get("data")):
